@@ -1,7 +1,9 @@
 """C27 - Byte-level BPE tokenization round-trips and reports consistent offsets.
 
 impl -> spec: vh-text bpe builds seeded byte-level BPE tokenizers (merge tables trained on seeded text plus
-random byte/token pairs incl. pairs cutting through UTF-8 sequences, explicit or derived vocabulary, added
+random byte/token pairs incl. pairs cutting through UTF-8 sequences, explicit vocabulary with seeded sparse/large id schemes over the whole u32 id space (bytes, merged tokens and
+added tokens offset by 2^8..2^31, 2^16 +- 1, counting down from 2^31-1 / u32::MAX, sparse random, large ids whose low 16
+bits equal a byte token's id) or derived vocabulary, added
 tokens, ignore_merges, pre-tokenizers none / ByteLevel / Split(Isolated) patterns / Bert / Digits / sequences,
 optional no-op BERT normalizer; through Tokenizer::from_json and through the builder API) and encodes seeded
 Unicode text.  Trace_Roundtrip computes UTF-8 boundaries from the logged input bytes and judges the round
@@ -54,7 +56,7 @@ def finish(ctx, trace, res):
     def nontrivial(r):  # multi-byte characters present and a non-empty merge table
         return any(b >= 128 for b in r["text"]) and r["nmerges"] > 0
 
-    total, distinct, dnt, samples = vlib.scan_cases(trace, ["tk", "ti", "pretok", "via", "nmerges", "text"], nontrivial)
+    total, distinct, dnt, samples = vlib.scan_cases(trace, ["tk", "ti", "pretok", "via", "nmerges", "idscheme", "text"], nontrivial)
     st = res["stats"]
     ctx.cov["evaluations"] = st.get("judged", 0)
     ctx.cov["distinct_nontrivial"] = dnt
